@@ -283,9 +283,16 @@ def run_concurrent(prog, preempt, tape, ctx_violations):
     touched = set()
     problems = ctx_violations
 
+    own = []  # (thread, id returned by add_task, amount advanced on it)
+
     def make(ops, name):
         def body():
             for op in ops:
+                if op[0] == "add":
+                    new = progress.add_task("own-" + name, total=op[1])
+                    own.append((name, new, op[2]))
+                    progress.advance(new, op[2])
+                    continue
                 tid = tids[op[1] % len(tids)]
                 if op[0] == "advance":
                     progress.advance(tid, op[2])
@@ -322,6 +329,16 @@ def run_concurrent(prog, preempt, tape, ctx_violations):
     for w in s.workers:
         if w.exc is not None:
             problems.append(("exception", "C12/concurrent/exc-%s" % type(w.exc).__name__, "%s raised %r" % (w.name, w.exc)))
+    ids = [new for _, new, _ in own]
+    if len(set(ids)) != len(ids) or set(ids) & set(tids):
+        problems.append(("completed", "C12/concurrent/duplicate-task-id", "add_task returned ids %r to concurrent callers (existing ids %r; schedule %r)" % (own, tids, s.trace[:6])))
+    elif len(progress._tasks) != len(tids) + len(own):
+        problems.append(("completed", "C12/concurrent/task-lost", "%d tasks registered, %d were added" % (len(progress._tasks), len(tids) + len(own))))
+    else:
+        for name, new, amount in own:
+            task = progress._tasks.get(new)
+            if task is None or Fraction(task.completed) != Fraction(amount) or task.description != "own-" + name:
+                problems.append(("completed", "C12/concurrent/own-task", "task %r added by %s and advanced by %r is %r (schedule %r)" % (new, name, amount, task, s.trace[:6])))
     for tid in tids:
         task = progress._tasks[tid]
         if Fraction(task.completed) != expected[tid]:
@@ -336,6 +353,7 @@ FIXED_PROGRAMS = [
     {"tasks": [3, 5], "threads": [[["advance", 0, 1], ["update", 1, 5]], [["update", 0, 2], ["advance", 1, 0.25]], [["advance", 0, 0.5]]], "clock": [0.5, 2]},
     {"tasks": [4], "threads": [[["advance", 0, 1]], [["advance", 0, 1]], [["advance", 0, 1]], [["advance", 0, 1]]], "clock": [1, 0, 3]},
     {"tasks": [100], "threads": [[["update", 0, 1], ["visible", 0, 1], ["advance", 0, 1]], [["advance", 0, 3], ["advance", 0, 3], ["advance", 0, 3]]], "clock": [40, 1]},
+    {"tasks": [5], "threads": [[["add", 10, 1], ["advance", 0, 1]], [["add", 20, 2]], [["advance", 0, 2], ["add", 3, 3]]], "clock": [1]},
 ]
 
 
@@ -343,7 +361,7 @@ class SchedulesExhaustive(Part):
     name = "schedules-exhaustive"
     custom = True
     exhaustive = True
-    rule = ("4 fixed programs of 2-4 threads advancing shared tasks; every schedule with one preemption (quick) and with two preemptions (thorough; pairs "
+    rule = ("5 fixed programs of 2-4 threads advancing shared tasks (one with threads that add tasks of their own); every schedule with one preemption (quick) and with two preemptions (thorough; pairs "
             "capped per program) at every yield point = traced line of rich/progress.py or operation of the (proxied) progress lock; final counters must equal "
             "the sum of the advances, speed/time_remaining never negative after any op; non-trivial (distinct by construction) = schedules that switched threads inside a rich frame")
     budget = {"quick": (16, 1), "thorough": (16, 1)}
@@ -397,14 +415,15 @@ class SchedulesExhaustive(Part):
 
 class SchedulesGenerated(Part):
     name = "schedules-generated"
-    rule = ("generated programs (2-6 threads x 1-4 ops advance/update(advance=)/update(visible=) over 1-3 shared tasks, integer or quarter amounts, generated "
+    rule = ("generated programs (2-6 threads x 1-4 ops advance/update(advance=)/update(visible=)/add_task-then-advance over 1-3 shared tasks, integer or quarter amounts, generated "
             "clock) x generated schedules (<= 6 preemptions at arbitrary yield points, generated tie-break tape); non-trivial = the schedule switched threads "
             "inside a rich frame and two threads advanced the same task")
     budget = {"quick": (8, 800), "thorough": (16, 10000)}
 
     def strategy(self, tier):
         amt = st.one_of(st.integers(0, 5), st.integers(0, 20).map(lambda k: k / 4))
-        op = st.one_of(st.tuples(st.just("advance"), st.integers(0, 2), amt), st.tuples(st.just("advance"), st.integers(0, 2), amt), st.tuples(st.just("update"), st.integers(0, 2), amt), st.tuples(st.just("visible"), st.integers(0, 2), st.integers(0, 1))).map(list)
+        op = st.one_of(st.tuples(st.just("advance"), st.integers(0, 2), amt), st.tuples(st.just("advance"), st.integers(0, 2), amt), st.tuples(st.just("update"), st.integers(0, 2), amt), st.tuples(st.just("visible"), st.integers(0, 2), st.integers(0, 1)),
+                       st.tuples(st.just("add"), st.sampled_from([1, 10, 0]), st.integers(0, 5))).map(list)
         prog = st.builds(lambda tasks, threads, clock: {"tasks": tasks, "threads": threads, "clock": clock},
                          st.lists(st.sampled_from([1, 3, 10, 100, 0]), min_size=1, max_size=3), st.lists(st.lists(op, min_size=1, max_size=4), min_size=2, max_size=6), st.lists(st.sampled_from([0, 0.5, 1, 2, 40]), min_size=1, max_size=5))
         pre = st.lists(st.tuples(st.integers(0, 160), st.integers(0, 4)).map(list), max_size=6)
@@ -418,7 +437,7 @@ class SchedulesGenerated(Part):
         shared = set()
         for i, ops in enumerate(spec["prog"]["threads"]):
             for op in ops:
-                if op[0] != "visible":
+                if op[0] not in ("visible", "add"):
                     shared.add((op[1] % len(spec["prog"]["tasks"]), i))
         per_task = {}
         for t, i in shared:
